@@ -13,3 +13,45 @@ for kind in range(5):
         unwind=(258 if kind >= 3 else 40), floor=30, timeout=900, memsafe=False,
         under_contract=['olc_db<uint64_t>::try_get (descent step at node kind %d, lock coupling)' % kind],
         trusted=['sequential contracts of the optimistic_lock primitives (their concurrent semantics: C07)', 'one thread only: no claim about interleavings'])
+# remove_or_choose_subtree: the lock-coupled removal step (write guards parent -> node -> child, obsolete + retire)
+LW = {'L_TRY_READ_LOCK': L + r'try_read_lock\(\)', 'L_CHECK': L + r'check\(unodb::optimistic_lock::version_type\) const',
+      'L_UPGRADE': L + r'try_upgrade_to_write_lock\(', 'L_WUNLOCK': L + r'write_unlock\(\)', 'L_WOBSOLETE': L + r'write_unlock_and_obsolete\(\)',
+      'L_IS_WLOCKED?': L + r'is_write_locked\(\) const', 'L_IS_OBS_ME?': L + r'is_obsoleted_by_this_thread\(\) const',
+      'RETIRE': r'^unodb::qsbr_per_thread::on_next_epoch_deallocate\(', 'THIS_THREAD': r'^unodb::this_thread\(\)'}
+SPEC_LOOPS = {'nv_load.0': 260, 'nv_load.1': 260, 'nv_child.0': 18, 'nv_wf_small.0': 18, 'nv_wf_48_full.0': 50, 'nv_wf_48_full.1': 260, 'nv_wf_256_full.0': 260, 'node_wf.0': 50, 'adt_tag.0': 10,
+              'lk_idx.0': 6, 'no_write_lock_held.0': 6, 'retired.0': 6, 'lg_freed.0': 6, 'lg_on_free.0': 6, 'stats_load.0': 7, 'stats_load.1': 6, 'stats_check.0': 7, 'stats_check.1': 6, 'memcmp.0': 10}
+UNW = {1: 10, 2: 19, 3: 258, 4: 258}
+for kind in (1, 2, 3, 4):
+    n = CLSN[kind]; stubs = dict(ADT); stubs.update(LW)
+    job('olc.rocs.k%d' % kind, ['C14', 'C16', 'C10', 'C08'], 'u_olc', 'proofs/olc/rocs.c', defines=['KIND=%d' % kind, 'POL=OLC64'],
+        roots={'ROCS': r'unodb::detail::olc_impl_helpers::remove_or_choose_subtree<[^(]*olc_inode_%d<' % n}, stubs=stubs, cfgs=(BASE, DEBUG),
+        unwind=UNW[kind], unwindset_raw=SPEC_LOOPS, floor=30, timeout=1800, mem_gb=20, memsafe=False, objbits=14,
+        under_contract=['olc_impl_helpers::remove_or_choose_subtree<olc_inode_%d> (lock-coupled removal step incl. write guards, obsolete, QSBR retire)' % n],
+        trusted=['sequential contracts of the optimistic_lock primitives (their concurrent semantics: C07)', 'one thread only: no claim about interleavings',
+                 'qsbr_per_thread::on_next_epoch_deallocate is a ledger event'])
+
+# try_remove: entry + one loop iteration, with the four remove_or_choose_subtree instantiations replaced by the contract proved in olc.rocs.k1..k4
+for kind in (0, 1):
+    stubs = dict(ADT); stubs.update(LW); stubs['ROCS*'] = r'unodb::detail::olc_impl_helpers::remove_or_choose_subtree<[^(]*olc_inode_\d+<'
+    job('olc.remove.top%d' % kind, ['C14', 'C16'], 'u_olc', 'proofs/olc/remove_top.c', defines=['KIND=%d' % kind, 'POL=OLC64'],
+        roots={'TRY_REMOVE': O64 + r'try_remove\('}, stubs=stubs, cut=['TRY_REMOVE/while_2econd'], cfgs=(BASE, DEBUG),
+        unwind=10, floor=20, timeout=900, memsafe=False, objbits=14,
+        under_contract=['olc_db<uint64_t>::try_remove (%s)' % ('entry: empty / leaf root / inner root up to the loop head' if kind == 0 else 'one descent-loop iteration, callee remove_or_choose_subtree by contract')],
+        trusted=['sequential contracts of the optimistic_lock primitives (their concurrent semantics: C07)', 'one thread only: no claim about interleavings'])
+# add_or_choose_subtree: the lock-coupled insertion step (write guards parent -> node; growth to the next larger class)
+for kind in (1, 2, 3, 4):
+    n = CLSN[kind]; stubs = dict(ADT); stubs.update(LW)
+    job('olc.aocs.k%d' % kind, ['C14', 'C16', 'C10', 'C08'], 'u_olc', 'proofs/olc/aocs.c', defines=['KIND=%d' % kind, 'POL=OLC64'],
+        roots=dict({'AOCS': r'unodb::detail::olc_impl_helpers::add_or_choose_subtree<[^(]*olc_inode_%d<' % n}, **({'N48_ADD': onode_rx(48) + r'add_to_nonfull\('} if kind == 3 else {})), stubs=stubs, cfgs=(BASE, DEBUG),
+        unwind={1: 19, 2: 258, 3: 258, 4: 258}[kind], unwindset_raw=SPEC_LOOPS, unwindset=({'N48_ADD': 8} if kind == 3 else None), floor=30, timeout=1800, mem_gb=20, memsafe=False, objbits=14,
+        under_contract=['olc_impl_helpers::add_or_choose_subtree<olc_inode_%d> (lock-coupled insertion step incl. write guards, growth, allocation failure)' % n],
+        trusted=['sequential contracts of the optimistic_lock primitives (their concurrent semantics: C07)', 'one thread only: no claim about interleavings',
+                 'qsbr_per_thread::on_next_epoch_deallocate is a ledger event'])
+# try_insert: entry + one loop iteration at a leaf / at an inner node, with the four add_or_choose_subtree instantiations replaced by the contract proved in olc.aocs.k1..k4
+for kind in (0, 1, 2):
+    stubs = dict(ADT); stubs.update(LW); stubs['AOCS*'] = r'unodb::detail::olc_impl_helpers::add_or_choose_subtree<[^(]*olc_inode_\d+<'
+    job('olc.insert.top%d' % kind, ['C14', 'C16', 'C08'], 'u_olc', 'proofs/olc/insert_top.c', defines=['KIND=%d' % kind, 'POL=OLC64'],
+        roots={'TRY_INSERT': O64 + r'try_insert\('}, stubs=stubs, cut=['TRY_INSERT/while_2econd'], cfgs=(BASE, DEBUG),
+        unwind=10, floor=20, timeout=900, memsafe=False, objbits=14,
+        under_contract=['olc_db<uint64_t>::try_insert (%s)' % ('entry: empty tree, non-empty up to the loop head' if kind == 0 else 'one loop iteration at a leaf (exists / leaf split)' if kind == 1 else 'one loop iteration at an inner node (prefix split / callee add_or_choose_subtree by contract)')],
+        trusted=['sequential contracts of the optimistic_lock primitives (their concurrent semantics: C07)', 'one thread only: no claim about interleavings'])
